@@ -28,6 +28,11 @@ pub fn convert_money(config: &SmartCalcConfig, _: &Tokinizer, fields: &BTreeMap<
             _ => return Err("Currency information not valid".to_string())
         };
 
+        /* Same currency, nothing to convert: no rate is needed ('2k kwd' keeps its currency word as a text token, which has to be merged here) */
+        if money.get_currency() == to_currency {
+            return Ok(TokenType::Money(money.get_price(), to_currency));
+        }
+
         let as_usd = match config.currency_rate.get(&money.get_currency()) {
             Some(l_rate) => do_divition(money.get_price(), *l_rate),
             _ => return Err("Currency information not valid".to_string())
